@@ -112,3 +112,87 @@ func HarnessC18_InitOrder() {
 	}
 	vfCover("c18-init-done")
 }
+
+func init() { vfRegister("HarnessC18_DagServices", HarnessC18_DagServices) }
+
+// HarnessC18_DagServices: every forward-edge DAG on n modules whose init
+// functions return services (so that the service wrappers, which query the
+// transitive and inverse dependencies, are built), initialised twice: the
+// stored dependency lists must not be disturbed by queries, and both
+// initialisations must respect the dependency order.
+func HarnessC18_DagServices() {
+	n := vfParam("mods", 4)
+	m := NewManager(log.NewNopLogger())
+	var order []string
+	for i := 0; i < n; i++ {
+		name := vfMods[i]
+		m.RegisterModule(name, func() (services.Service, error) {
+			order = append(order, name)
+			return services.NewIdleService(nil, nil), nil
+		})
+	}
+	adj := make([][]bool, n)
+	for i := range adj {
+		adj[i] = make([]bool, n)
+	}
+	var reach func(from, to int) bool
+	reach = func(from, to int) bool {
+		if from == to {
+			return true
+		}
+		for y := 0; y < n; y++ {
+			if adj[from][y] && reach(y, to) {
+				return true
+			}
+		}
+		return false
+	}
+	// edges i -> j only for i < j (acyclic by construction), each added by its
+	// own AddDependency call, in an order that lets later modules gain
+	// dependencies after earlier ones already point at them
+	for j := n - 1; j >= 1; j-- {
+		for i := 0; i < j; i++ {
+			if vfBool("edge") {
+				vfAssert(m.AddDependency(vfMods[i], vfMods[j]) == nil, "C18 a dependency that keeps the graph acyclic is accepted")
+				adj[i][j] = true
+			}
+		}
+	}
+	for round := 0; round < 2; round++ {
+		order = nil
+		svcs, err := m.InitModuleServices(vfMods[0])
+		vfAssert(err == nil, "C18 initialisation of an acyclic graph succeeds")
+		pos := make([]int, n)
+		cnt := make([]int, n)
+		for p, name := range order {
+			for i := 0; i < n; i++ {
+				if vfMods[i] == name {
+					pos[i] = p
+					cnt[i]++
+				}
+			}
+		}
+		needed := 0
+		for i := 0; i < n; i++ {
+			if reach(0, i) {
+				needed++
+				vfAssert(cnt[i] == 1, "C18 every needed module is initialised exactly once (also on a later initialisation)")
+				for j := 0; j < n; j++ {
+					if i != j && reach(i, j) && cnt[i] == 1 && cnt[j] == 1 {
+						vfAssert(pos[j] < pos[i], "C18 a module is initialised after all modules it depends on")
+					}
+				}
+			} else {
+				vfAssert(cnt[i] == 0, "C18 modules that are not needed are not initialised")
+			}
+		}
+		vfAssert(len(svcs) == needed, "C18 one service per needed module")
+		// a dependency that would close a cycle is still rejected after the queries
+		for i := 1; i < n; i++ {
+			if reach(0, i) {
+				vfAssert(m.AddDependency(vfMods[i], vfMods[0]) != nil, "C18 adding a dependency that would close a cycle is rejected")
+			}
+		}
+	}
+	vfCover("c18-dag-done")
+}
